@@ -3,8 +3,13 @@ mod c02;
 mod c03;
 mod c04;
 mod c05;
+mod c06;
+mod c07;
+mod c08;
 mod c09;
 mod c10;
+mod c13;
+mod c14;
 mod c15;
 mod c18;
 mod common;
@@ -12,6 +17,7 @@ mod cursor_bfs;
 mod files;
 mod qcheck;
 mod query;
+mod sorter_util;
 
 use vlib::report::{quiet_panics, read_replay, Tier};
 
@@ -43,6 +49,11 @@ fn main() {
             "C15" => c15::replay(case),
             "C10" => c10::replay(case),
             "C18" => c18::replay(case),
+            "C13" => c13::replay(case),
+            "C14" => c14::replay(case),
+            "C06" => c06::replay(case),
+            "C07" => c07::replay(case),
+            "C08" => c08::replay(case),
             "C03" => c03::replay(case),
             _ => usage(),
         }
@@ -61,6 +72,11 @@ fn main() {
             "C15" => c15::run(tier),
             "C10" => c10::run(tier),
             "C18" => c18::run(tier),
+            "C13" => c13::run(tier),
+            "C14" => c14::run(tier),
+            "C06" => c06::run(tier),
+            "C07" => c07::run(tier),
+            "C08" => c08::run(tier),
             "C03" => c03::run(tier),
             _ => usage(),
         }
